@@ -1,5 +1,6 @@
 """Library-level (L1) properties: case generators, ownership of a model/implementation
 divergence (projection obs_P), and direct oracles evaluated on the implementation's trace."""
+import re
 import random
 from .gen import HistGen, chain_prefix, payload, pick
 from .l1 import Case, same_line
@@ -1226,6 +1227,81 @@ class C11(L1Prop):
 
 
 # ------------------------------------------------------------------ C13
+def l0_cases(rng, n):
+    """storage-trait rig: transactions made of the eight StorageTxn calls.  Two streams: sequences
+    that stay inside the storage contract (a small reference state is kept here to choose them),
+    compared call by call with each backend's model and across backends; and adversarial sequences,
+    compared only up to the first call that leaves the contract."""
+    out = []
+    for k in range(n):
+        adversarial = k % 4 == 3
+        st = {}            # client -> {"latest": id name, "vers": [(v, p)], "snap": version name or None}
+        fresh = [0]
+        def newid():
+            fresh[0] += 1
+            return f"$v{fresh[0]}"
+        ops = []
+        only_sqlite = False
+        for t in range(rng.randint(3, 12)):
+            c = rng.choice([1, 1, 2])
+            calls, wrote = [], False
+            cur = dict(st[c], vers=list(st[c]["vers"])) if c in st else None
+            for j in range(rng.randint(1, 5)):
+                if adversarial:
+                    ids = ["nil"] + [f"$v{i}" for i in range(1, fresh[0] + 2)] + ["$x"]
+                    kind = rng.choice(["gc", "nc", "ss", "gsd", "gvp", "gv", "av", "co"])
+                    if kind == "nc": calls.append(f"nc={rng.choice(ids)}")
+                    elif kind == "ss": calls.append(f"ss={rng.choice(ids)}/{rng.choice([0, 1, 7])}/b:{rng.randint(0, 9)}")
+                    elif kind in ("gsd", "gvp", "gv"): calls.append(f"{kind}={rng.choice(ids)}")
+                    elif kind == "av":
+                        v = newid() if rng.random() < 0.7 else rng.choice(ids[1:])
+                        calls.append(f"av={v}/{rng.choice(ids)}/b:{rng.randint(0, 9)},{t}")
+                    elif kind == "co":
+                        # (a second COMMIT in one transaction is something no caller does and the
+                        # backends disagree about: one commit per transaction at most)
+                        if "co" not in calls: calls.append("co")
+                    else: calls.append(kind)
+                    continue
+                # inside the contract
+                kinds = ["gc", "gvp", "gv"]
+                if cur is None: kinds += ["nc", "nc"]
+                else: kinds += ["av", "av", "av", "ss"] + (["gsd"] if cur["snap"] else [])
+                kind = rng.choice(kinds)
+                known = ["nil", "$x"] + [v for (v, p) in (cur["vers"] if cur else [])]
+                if kind == "gc": calls.append("gc")
+                elif kind in ("gvp", "gv"): calls.append(f"{kind}={rng.choice(known)}")
+                elif kind == "nc":
+                    l = rng.choice(["nil", "nil", "$x"])
+                    calls.append(f"nc={l}"); cur = {"latest": l, "vers": [], "snap": None}; wrote = True
+                elif kind == "av":
+                    v = newid()
+                    parents = {p for (_, p) in cur["vers"]}
+                    p = cur["latest"] if cur["latest"] not in parents else newid()
+                    calls.append(f"av={v}/{p}/b:{rng.randint(0, 9)},{t}")
+                    cur["vers"].append((v, p)); cur["latest"] = v; wrote = True
+                elif kind == "ss":
+                    v = rng.choice(known)
+                    calls.append(f"ss={v}/{rng.choice([0, 3])}/b:{rng.randint(0, 9)}"); cur["snap"] = v; wrote = True
+                elif kind == "gsd":
+                    calls.append(f"gsd={cur['snap']}")
+            if not adversarial:
+                if wrote and rng.random() < 0.15:
+                    only_sqlite = True          # dropped without commit: rolled back (the in-memory test backend panics here)
+                elif wrote:
+                    calls.append("co")
+                    st[c] = cur
+            ops.append(f"txn {c} " + " ".join(calls))
+        meta = {"l0": True, "raw": k % 2 == 0}
+        if only_sqlite or adversarial:
+            meta["only"] = "sqlite" if (only_sqlite or k % 8 == 3) else "inmem"
+            if adversarial and meta["only"] == "inmem":
+                # the in-memory test backend panics when a transaction that wrote is dropped without a
+                # commit and poisons its lock: always commit there
+                ops = [o if " co" in o else o + " co" for o in ops]
+        out.append(Case(f"c13-l0-{k}", ops, meta))
+    return out
+
+
 class C13(L1Prop):
     id = "C13"
     rule = ("the same symbolic history run in lock step on the in-memory backend and on SQLite with reopen at random "
@@ -1245,6 +1321,7 @@ class C13(L1Prop):
             ops, g = rand_prefix(rng, rng.randint(8, length), nc, k % 5 == 0, True, True, obs)
             ops += ["reopen", "dumpall", "rows"]
             out.append(Case(f"c13-{k}", ops))
+        out += l0_cases(rng, sizes(tier, 150, 1500))
         # a chain that starts on a version the server never stored, and an upload for exactly that version
         for k in range(sizes(tier, 10, 60)):
             more = k % 5
@@ -1254,10 +1331,36 @@ class C13(L1Prop):
             ops += ["dumpall", "as 1 base:1 b:9,9", "gs 1", "dumpall", "rows", "av 1 latest:1 b:4", "dumpall", "reopen", "gs 1"]
             out.append(Case(f"c13-base-{k}", ops))
         return out
+    def normalize(self, trace):
+        # storage-trait lines: the model also says whether the call sequence so far is inside the
+        # storage contract (run on the abstract store); that note moves from the response to the op
+        out, ok = [], True
+        for (o, ri, rm) in trace:
+            if o.startswith("txn "):
+                m = re.match(r"^(.*) contract=(ok|broken)$", rm)
+                if m:
+                    ok = ok and m.group(2) == "ok"
+                    o, rm = o + (" #in-contract" if ok else " #out-of-contract"), m.group(1)
+            out.append((o, ri, rm))
+        return out
     def relevant(self, i, trace):
+        # storage-trait rig: a difference between a backend and ITS model, on a call sequence that is
+        # inside the storage contract (outside it nothing is claimed)
+        o, ri, rm = trace[i]
+        if o.startswith("txn "):
+            return o.endswith("#in-contract")
         return False      # responses across backends are compared directly (cross); raw rows belong to C19
     def cross(self, case, traces):
         a, b = traces.get("inmem", []), traces.get("sqlite", [])
+        if case.meta.get("l0"):
+            a, b = self.normalize(a), self.normalize(b)
+            for i, ((oa, ra, _), (ob, rb, _)) in enumerate(zip(a, b)):
+                if not oa.endswith("#in-contract"):
+                    break
+                ta, tb = re.sub(r"@\d+\+", "@T+", ra), re.sub(r"@\d+\+", "@T+", rb)
+                if ta != tb:
+                    return [f"storage call sequence {i} `{oa[:120]}` (inside the storage contract): in-memory backend answered `{ra}`, SQLite answered `{rb}`"]
+            return []
         for i, ((oa, ra, _), (ob, rb, _)) in enumerate(zip(a, b)):
             if oa.split()[0] == "rows":
                 continue
